@@ -23,6 +23,8 @@ def dispatch (op : String) (args : List String) : Option String :=
           | .err => "err"
           | .unmodelled => "unmodelled")
       | none => "bad-op")
+  -- specification (C08): a label wrapped in a tag is neither an integer nor a text string
+  | "api.taglabel", [_] => some "rejected"
   | "api.hash", [alg, d] => some (match alg.toInt?, unhex d with
       | some a, some b => (match hashOfAlg a with | some f => "ok " ++ hex (f b) | none => "none")
       | _, _ => "bad-op")
